@@ -50,6 +50,21 @@ func customLeaves(fallible bool) []customLeaf {
 			CtxParam:  "ctxA PFXCtx",
 		},
 		{
+			// the method has contexts the custom function does not take: it is still the function for the pair
+			Name:      "extend_method_extra_ctx",
+			Shape:     shape{Src: "PFXA", Tgt: "PFXB", Name: "extxctx", Decls: []string{base + "type PFXCtx struct{ Z int }\n" + fmt.Sprintf("func PFXExt(a PFXA) %s { %s }", errRes("PFXB"), ret("0"))}},
+			ConvLines: []string{"arg:context:regex ^ctx", "extend PFXExt"},
+			Custom:    map[string]string{"PFXA→PFXB": "PFXExt"},
+			CtxParam:  "ctxA PFXCtx",
+		},
+		{
+			Name:      "extend_method_more_ctx",
+			Shape:     shape{Src: "PFXA", Tgt: "PFXB", Name: "extmctx", Decls: []string{base + "type PFXCtx struct{ Z int }\ntype PFXCty *int\n" + fmt.Sprintf("func PFXExt(a PFXA, ctxA PFXCtx) %s { %s }", errRes("PFXB"), ret("0"))}},
+			ConvLines: []string{"arg:context:regex ^ctx", "extend PFXExt"},
+			Custom:    map[string]string{"PFXA→PFXB": "PFXExt"},
+			CtxParam:  "ctxA PFXCtx, ctxB PFXCty",
+		},
+		{
 			Name:      "extend_ctx_first",
 			Shape:     shape{Src: "PFXA", Tgt: "PFXB", Name: "extctx1", Decls: []string{base + "type PFXCtx struct{ Z int }\ntype PFXCty *int\n" + fmt.Sprintf("// goverter:context ctxB\n// goverter:context ctxA\nfunc PFXExt(ctxB PFXCty, a PFXA, ctxA PFXCtx) %s { %s }", errRes("PFXB"), ret("0"))}},
 			ConvLines: []string{"arg:context:regex ^ctx", "extend PFXExt"},
